@@ -11,6 +11,11 @@ Line-protocol driver for the C19 model (query pipeline).
                              gate or to its end
   end                        final observation
   leaf-new | leaf-send <nil|err>     LeafExecuteContext.SendResponse
+  leafreq <node> ... | leafreq - | leafreq x    one request on the real leaf path whose stages form this tree
+                             (`-`: the request is refused before a pipeline exists and the task
+                             handler answers; `x`: the task handler's own pool rejects the request): the tree is run to the end (lowest runnable goroutine
+                             first — by the theorems the answer does not depend on the schedule) and
+                             the responses `LeafExecuteContext.SendResponse` produces are reported
 
 A *gate* is the point in front of `stage.execute(node)` (instruction `exec`): the only place where
 the harness can park a goroutine of the real code without touching lindb's source.  `rel` is a
@@ -79,6 +84,16 @@ def runToGate : Nat → State → Nat → State
 
 def fuel : Nat := 100000
 
+/-- run to the end: always the lowest-numbered goroutine that still has an instruction -/
+def runAll : Nat → State → State
+  | 0, s => s
+  | n + 1, s =>
+    match (List.range s.threads.length).find? (fun k => (stepAt cfg s k).isSome) with
+    | some k => match stepAt cfg s k with
+      | some s' => runAll n s'
+      | none => s
+    | none => s
+
 def gates (s : State) : List Nat :=
   (List.range s.threads.length).filter (fun k => match s.threads[k]? with | some t => atGate t | none => false)
 
@@ -122,6 +137,20 @@ def step (st : St) (ws : List String) : St × String :=
   | ["end"] =>
     match st.pipe with
     | some s => ({ st with pipe := none }, final s)
+    | none => (st, "bad-op")
+  | ["leafreq", "-"] => (st, "responses=1 resp=err")
+  | ["leafreq", "x"] =>
+    -- the task handler's own pool rejects the request: answered only if Submit notifies the handler
+    (st, if cfg.rejectNotifies then "responses=1 resp=err" else "responses=0 resp=-")
+  | "leafreq" :: toks =>
+    match parseTree toks with
+    | some root =>
+      let s := runAll fuel (Pipeline.init root)
+      let rs := responses s.sh.fired
+      let shown := match rs with
+        | [] => "-"
+        | r :: _ => if r then "err" else "nil"
+      (st, s!"responses={rs.length} resp={shown}")
     | none => (st, "bad-op")
   | ["leaf-new"] => ({ st with leaf := Leaf.init }, "ok")
   | ["leaf-send", e] =>
